@@ -44,7 +44,7 @@ Definition py_sum (l : list val) : res val :=
 Definition py_truediv (a b : val) : res val :=
   match a, b with
   | VInt x, VInt y => if y =? 0 then Exc ZeroDivisionError else
-                      let f := q2f (if y <? 0 then - x else x) (Z.abs y) in
+                      let f := zdiv_f x y in
                       if f_is_inf f then Exc OverflowError else Ok (VFloat f)
   | VFloat x, VInt y => if y =? 0 then Exc ZeroDivisionError else
                         match z2f_checked y with Ok g => Ok (VFloat (PrimFloat.div x g)) | Exc e => Exc e end
